@@ -87,3 +87,72 @@ pub fn new_alc_pkt(
 pub fn new_alc_pkt_close_session(cci: &u128, tsi: u64) -> Vec<u8> {
     alc::new_alc_pkt_close_session(cci, tsi)
 }
+
+/// `common::lct::parse_lct_header`
+pub fn parse_lct_header(data: &[u8]) -> crate::error::Result<lct::LCTHeader> {
+    lct::parse_lct_header(data)
+}
+
+/// Build an `Oti` from raw field values, including the scheme-specific part whose types are
+/// crate-private: `scheme_specific = Some((kind, a, b, c))` with kind 0 = Reed-Solomon GF(2^m)
+/// `(m, g, _)`, kind 1 = RaptorQ `(Z, N, Al)`, kind 2 = Raptor `(Z, N, Al)`.
+/// Returns `None` when `fec_encoding_id` is not a known FEC Encoding ID or `kind` is unknown.
+pub fn make_oti(
+    fec_encoding_id: u8,
+    fec_instance_id: u16,
+    maximum_source_block_length: u32,
+    encoding_symbol_length: u16,
+    max_number_of_parity_symbols: u32,
+    scheme_specific: Option<(u8, u32, u32, u32)>,
+    inband_fti: bool,
+) -> Option<oti::Oti> {
+    let fec_encoding_id: oti::FECEncodingID = fec_encoding_id.try_into().ok()?;
+    let scheme_specific = match scheme_specific {
+        None => None,
+        Some((0, m, g, _)) => Some(oti::SchemeSpecific::ReedSolomon(
+            oti::ReedSolomonGF2MSchemeSpecific {
+                m: m as u8,
+                g: g as u8,
+            },
+        )),
+        Some((1, z, n, al)) => Some(oti::SchemeSpecific::RaptorQ(oti::RaptorQSchemeSpecific {
+            source_blocks_length: z as u8,
+            sub_blocks_length: n as u16,
+            symbol_alignment: al as u8,
+        })),
+        Some((2, z, n, al)) => Some(oti::SchemeSpecific::Raptor(oti::RaptorSchemeSpecific {
+            source_blocks_length: z as u16,
+            sub_blocks_length: n as u8,
+            symbol_alignment: al as u8,
+        })),
+        Some(_) => return None,
+    };
+    Some(oti::Oti {
+        fec_encoding_id,
+        fec_instance_id,
+        maximum_source_block_length,
+        encoding_symbol_length,
+        max_number_of_parity_symbols,
+        scheme_specific,
+        inband_fti,
+    })
+}
+
+/// Scheme-specific part of an `Oti` as `(kind, a, b, c)` (same convention as `make_oti`)
+pub fn oti_scheme_specific(oti: &oti::Oti) -> Option<(u8, u32, u32, u32)> {
+    match oti.scheme_specific.as_ref()? {
+        oti::SchemeSpecific::ReedSolomon(s) => Some((0, s.m as u32, s.g as u32, 0)),
+        oti::SchemeSpecific::RaptorQ(s) => Some((
+            1,
+            s.source_blocks_length as u32,
+            s.sub_blocks_length as u32,
+            s.symbol_alignment as u32,
+        )),
+        oti::SchemeSpecific::Raptor(s) => Some((
+            2,
+            s.source_blocks_length as u32,
+            s.sub_blocks_length as u32,
+            s.symbol_alignment as u32,
+        )),
+    }
+}
